@@ -371,6 +371,28 @@ def program_is_valid(program) -> bool:
 # real execution
 
 
+import collections.abc as _abc
+
+
+class GenWrapper(_abc.Generator):
+    """A generator-protocol object that is not a native generator (what a wrapper class, Cython or
+    mypyc would hand back); the engine documents `isinstance(result, Generator)` dispatch."""
+
+    def __init__(self, gen):
+        self._gen = gen
+
+    def send(self, value):
+        return self._gen.send(value)
+
+    def throw(self, typ=None, val=None, tb=None):
+        if val is None and tb is None:
+            return self._gen.throw(typ)
+        return self._gen.throw(typ, val, tb)
+
+    def close(self):
+        return self._gen.close()
+
+
 class RealRun:
     """Builds the program out of real Entities / Events / SimFutures.
 
@@ -531,7 +553,8 @@ class RealRun:
                     for h in action.get("add_hooks") or []:
                         event.add_completion_hook(run._mk_hook(h))
                     return run._style(run._make_events(action.get("events")), action.get("style", "list"))
-                return run._proc(action, pid, event)
+                proc = run._proc(action, pid, event)
+                return GenWrapper(proc) if action.get("wrapped") else proc
 
         self.entities = [ScriptEntity(i) for i in range(self.p["n_ent"])]
         pre = self.p["pre"]
